@@ -12,6 +12,7 @@ import traceback
 
 VERIF = os.path.dirname(os.path.dirname(os.path.abspath(__file__)))
 REPO = os.environ.get("VERIF_REPO", "/repo")
+OUT = os.environ.get("VERIF_OUT", VERIF)  # evidence/ and replays/ go here (scratch runs against patched copies set it)
 if REPO not in sys.path:
     sys.path.insert(0, REPO)
 
@@ -126,8 +127,8 @@ class Report:
     # ---- finishing -------------------------------------------------------
     def finish(self):
         wall = time.time() - self.t0
-        os.makedirs(os.path.join(VERIF, "evidence"), exist_ok=True)
-        os.makedirs(os.path.join(VERIF, "replays"), exist_ok=True)
+        os.makedirs(os.path.join(OUT, "evidence"), exist_ok=True)
+        os.makedirs(os.path.join(OUT, "replays"), exist_ok=True)
         n = len(self.obl)
         d = sum(1 for o in self.obl if o["ok"])
         by_backend = {}
@@ -159,7 +160,7 @@ class Report:
                 solver_output=v["solver_output"],
                 failing_input_found=bool(v["witness"]),
             )
-            with open(os.path.join(VERIF, path), "w") as f:
+            with open(os.path.join(OUT, path), "w") as f:
                 json.dump(body, f, indent=1, default=str)
             tail = "" if v["witness"] else " no-failing-input-found"
             lines.append(f"VIOLATION property={self.pid} replay={path} obligation={v['obligation']} case={v['case']} :: {v['what']}{tail}")
@@ -220,7 +221,7 @@ class Report:
             wall_s=round(wall, 2),
             violations=len(lines),
         )
-        with open(os.path.join(VERIF, "evidence", f"{self.pid}.json"), "w") as f:
+        with open(os.path.join(OUT, "evidence", f"{self.pid}.json"), "w") as f:
             json.dump(ev, f, indent=1, default=str)
         print(
             f"[{self.pid}] tier={self.tier} obligations={n} discharged={d} bounded_cases={self.bounded_cases} "
